@@ -125,7 +125,8 @@ pub fn owners(clause: &str) -> &'static [&'static str] {
         | "token-reused" | "token-ack" => &["C02"],
         "must-miss-ttl" | "resurrected" | "expired-visible" | "expiry-prolonged" | "expiry-shortened" => &["C05"],
         "add-on-present" | "add-on-absent" | "replace-on-absent" | "replace-on-present" | "concat-on-absent"
-        | "concat-value" | "concat-flags" | "concat-must-succeed" | "rejected-modified" | "nothing-stored" => &["C06"],
+        | "concat-value" | "concat-flags" | "concat-must-succeed" | "rejected-modified" | "nothing-stored"
+        | "conditional-store-effect" => &["C06"],
         "counter-value" | "counter-text" | "counter-flags" | "counter-nonnumeric" | "counter-create"
         | "counter-ffffffff" | "counter-must-succeed" => &["C07"],
         "delete-status" | "delete-not-removed" | "flush-immediate" | "flush-deadline" | "flush-status"
